@@ -53,33 +53,37 @@ theorem rs_bad_mono {text : Bytes} {i j : Nat} (hij : i ≤ j) (h : rs text i = 
   obtain ⟨k, rfl⟩ := Nat.exists_eq_add_of_le hij
   rw [rs_add, h, foldl_bad]
 
-/-! ## the hypotheses on the template: a hole at `n`, no delimiter before, prefix in `D` -/
+/-! ## the hypotheses on the template: a hole at `n`, no delimiter in `[lo, n)`, prefix in `D` -/
 
-structure Hole (text : Bytes) (n : Nat) : Prop where
+/-- `n` is the next hole after the offset `lo`: a delimiter opens at `n`, none starts in `[lo, n)`,
+the reference run over the REAL text up to `n` stays in the class `D` and makes a claim at `n`.
+(`lo = 0`: the first hole. `free` is used by `crun_sim` only — the one-step lemmas hold for
+every `lo`, in particular for `lo = n`, where `free` is vacuous.) -/
+structure Hole (text : Bytes) (lo n : Nat) : Prop where
   at0 : text[n]? = some 0x7b
   at1 : ∃ d, text[n + 1]? = some d ∧ (d = 0x7b ∨ d = 0x25 ∨ d = 0x23)
-  free : delimFree text n
+  free : ∀ i, lo ≤ i → i < n → delimAt text i = false
   good : ∀ i, i ≤ n → rs text i ≠ .bad
   habs : abs containsURL (rs text n) ≠ none
 
-theorem Hole.lt_length {text : Bytes} {n : Nat} (H : Hole text n) : n + 1 < text.length := by
+theorem Hole.lt_length {text : Bytes} {lo n : Nat} (H : Hole text lo n) : n + 1 < text.length := by
   obtain ⟨d, hd, _⟩ := H.at1
   exact (List.getElem?_eq_some_iff.mp hd).1
 
-theorem Hole.get {text : Bytes} {n : Nat} (H : Hole text n) {i : Nat} (hi : i ≤ n) :
+theorem Hole.get {text : Bytes} {lo n : Nat} (H : Hole text lo n) {i : Nat} (hi : i ≤ n) :
     ∃ c, text[i]? = some c := by
   have := H.lt_length
   exact ⟨text[i]'(by omega), List.getElem?_eq_getElem (by omega)⟩
 
-theorem Hole.step {text : Bytes} {n : Nat} (H : Hole text n) {i : Nat} (hi : i < n) {c : UInt8}
+theorem Hole.step {text : Bytes} {lo n : Nat} (H : Hole text lo n) {i : Nat} (hi : i < n) {c : UInt8}
     (hc : text[i]? = some c) : rstep (rs text i) c ≠ .bad := by
   rw [← rs_succ hc]; exact H.good _ hi
 
-/-- a `{` before the hole is not followed by `{`, `%`, `#` -/
-theorem Hole.brace {text : Bytes} {n : Nat} (H : Hole text n) {i : Nat} (hi : i < n)
+/-- a `{` between `lo` and the hole is not followed by `{`, `%`, `#` -/
+theorem Hole.brace {text : Bytes} {lo n : Nat} (H : Hole text lo n) {i : Nat} (hlo : lo ≤ i) (hi : i < n)
     (hc : text[i]? = some 0x7b) {d : UInt8} (hd : text[i + 1]? = some d) :
     ¬ (d = 0x7b ∨ d = 0x25 ∨ d = 0x23) := by
-  have := H.free i hi
+  have := H.free i hlo hi
   simp only [delimAt, hc, hd] at this
   intro h; rcases h with rfl | rfl | rfl <;> simp at this
 
@@ -199,24 +203,26 @@ def StepOK (U : Unicode) (text : Bytes) (n : Nat) (s : CSt) : Prop :=
 
 def mu (n : Nat) (s : CSt) : Nat := 2 * (n - s.pos) + (if s.ctx = ContextUnquotedAttr then 1 else 0)
 
-theorem crun_sim {U : Unicode} {text : Bytes} {n : Nat} (H : Hole text n)
+theorem crun_sim {U : Unicode} {text : Bytes} {lo n : Nat} (H : Hole text lo n)
     (hstep : ∀ s, s.pos < n → R text s (rs text s.pos) → StepOK U text n s) :
-    ∀ fuel s, s.pos ≤ n → R text s (rs text s.pos) → mu n s ≤ fuel →
+    ∀ fuel s, lo ≤ s.pos → s.pos ≤ n → R text s (rs text s.pos) → mu n s ≤ fuel →
       (crun U text n fuel s).pos = n ∧ R text (crun U text n fuel s) (rs text n) := by
   intro fuel
   induction fuel with
   | zero =>
-    intro s hp hR hmu
+    intro s hlo hp hR hmu
     have : s.pos = n := by simp only [mu] at hmu; omega
     simp only [crun]; subst this; exact ⟨rfl, hR⟩
   | succ fuel ih =>
-    intro s hp hR hmu
+    intro s hlo hp hR hmu
     simp only [crun]
     by_cases hlt : s.pos < n
-    · have hd := H.free _ hlt
+    · have hd := H.free _ hlo hlt
       simp only [hlt, hd, Bool.not_false, and_self, if_true]
       obtain ⟨h1, h2, h3⟩ := hstep s hlt hR
-      apply ih _ h1 h2
+      have hlo' : lo ≤ (cstep U text s).pos := by
+        rcases h3 with h3 | ⟨h3, _, _⟩ <;> omega
+      apply ih _ hlo' h1 h2
       simp only [mu] at hmu ⊢
       rcases h3 with h3 | ⟨h3, h4, h5⟩
       · split <;> split at hmu <;> omega
@@ -234,11 +240,11 @@ theorem rs_append_left (p t : Bytes) {i : Nat} (hi : i ≤ p.length) : rs (p ++ 
 
 theorem Hole.of_hyps {p t : Bytes} (ht : startsDelim t) (hfree : delimFree (p ++ t) p.length)
     {c : HtmlTok.Ctx} {u : Bool} (habs : abs containsURL (run p) = some (c, u)) :
-    Hole (p ++ t) p.length := by
+    Hole (p ++ t) 0 p.length := by
   obtain ⟨d, rest, rfl, hd⟩ := ht
   have hn : rs (p ++ 0x7b :: d :: rest) p.length = run p := by
     rw [rs_append_left _ _ (Nat.le_refl _)]; simp
-  refine ⟨by simp, ⟨d, by simp, hd⟩, hfree, ?_, ?_⟩
+  refine ⟨by simp, ⟨d, by simp, hd⟩, fun i _ hi => hfree i hi, ?_, ?_⟩
   · intro i hi hb
     have := rs_bad_mono hi hb
     rw [hn] at this
@@ -249,14 +255,15 @@ theorem Hole.of_hyps {p t : Bytes} (ht : startsDelim t) (hfree : delimFree (p ++
 theorem ctx_agree_of_step {U : Unicode} {p t : Bytes} (ht : startsDelim t)
     (hfree : delimFree (p ++ t) p.length) {c : HtmlTok.Ctx} {u : Bool}
     (habs : abs containsURL (run p) = some (c, u))
-    (hstep : Hole (p ++ t) p.length → ∀ s, s.pos < p.length → R (p ++ t) s (rs (p ++ t) s.pos) →
+    (hstep : Hole (p ++ t) 0 p.length → ∀ s, s.pos < p.length → R (p ++ t) s (rs (p ++ t) s.pos) →
       StepOK U (p ++ t) p.length s) :
     (ctxAt U (p ++ t) p.length).pos = p.length ∧ (ctxAt U (p ++ t) p.length).ctx = ctxNat c ∧
       (ctxAt U (p ++ t) p.length).url = u := by
   have H := Hole.of_hyps ht hfree habs
   have hmu : mu p.length init ≤ 2 * (p ++ t).length + 4 := by
     simp [mu, init, ContextHTML, ContextUnquotedAttr]; omega
-  obtain ⟨h1, h2⟩ := crun_sim H (hstep H) (2 * (p ++ t).length + 4) init (Nat.zero_le _) (R_init _) hmu
+  obtain ⟨h1, h2⟩ := crun_sim H (hstep H) (2 * (p ++ t).length + 4) init (Nat.zero_le _)
+    (Nat.zero_le _) (R_init _) hmu
   refine ⟨h1, ?_⟩
   have hn : rs (p ++ t) p.length = run p := by
     rw [rs_append_left _ _ (Nat.le_refl _)]; simp
